@@ -110,7 +110,7 @@ func failureProblems(res *run.Result, exp *ref.Result, f *ref.Task, failProc str
 func c09(args []string) {
 	c := chk.New("C09", "fault_enumeration", args)
 	c.Build(false)
-	c.Rule("generated graphs x every chosen task as the failing one x failure kind {exit non-zero before/mid/after writing, killed by SIGKILL / SIGSEGV, the task's shell killed by SIGKILL / SIGTERM after writing, declared output not produced, output written under another name; Go-function variants; task cannot be formed: empty parameter value, missing tag, invalid output path (space, colon, empty)} while sibling tasks are running; oracle = exit status != 0, no completion report, no final path of the failing task exists, no start event of any transitive dependant; plus output paths that cannot be finalized: an absolute output area on another file system (symlink to /dev/shm), where the commands succeed but the rename out of the temp directory fails - the program must exit non-zero, must not report completion, and no downstream task may run. distinct_nontrivial = distinct (graph shape, failing task, failure kind) in which the failing command really ran (or, for unformable tasks, the workflow was started) and >= 1 sibling task executed")
+	c.Rule("generated graphs x every chosen task as the failing one x failure kind {exit non-zero before/mid/after writing, killed by SIGKILL / SIGSEGV, the task's shell killed by SIGKILL / SIGTERM after writing, declared output not produced, output written under another name; Go-function variants; task cannot be formed: empty parameter value, missing tag, invalid output path (space, colon, empty)} while sibling tasks are running; oracle = exit status != 0, no completion report, no final path of the failing task exists, no start event of any transitive dependant; plus output paths that cannot be finalized: an absolute output area on another file system (symlink to /dev/shm), where the commands succeed but the rename out of the temp directory fails - the program must exit non-zero, must not report completion, and no downstream task may run; Go-function tasks also fail by panicking. distinct_nontrivial = distinct (graph shape, failing task, failure kind) in which the failing command really ran (or, for unformable tasks, the workflow was started) and >= 1 sibling task executed")
 	c.Assume("siblings that were already running may finalize their own outputs (os.Exit does not wait) - legal", "orphaned sibling commands are killed by the runner after the workflow process has exited")
 	rng := c.Rand("c09")
 	type job struct {
